@@ -1,6 +1,6 @@
 (* C06 - Schema validation always terminates with a verdict and never panics. *)
 From Coq Require Import List ZArith Bool.
-From Verif Require Import Base.Sx Base.GoVal Schema.Ast Schema.Build Schema.Pipeline Schema.PipelineTotal.
+From Verif Require Import Base.Sx Base.GoVal Schema.Ast Schema.Build Schema.Pipeline Schema.PipelineTotal Schema.PipelineTerm.
 Import ListNotations.
 Open Scope Z_scope.
 
@@ -28,3 +28,29 @@ Theorem C06_full_refuted_unguarded_cycle : forall OR N opt fuel p q d,
   sv_validate OR N opt cyc_defs fuel cyc_a p q d = OutOfFuel.
 Proof. exact unguarded_cycle_never_terminates. Qed.
 Print Assumptions C06_full_refuted_unguarded_cycle.
+
+(* Positive half: on a schema without references a verdict is returned - no panic and no exhaustion - for every value,
+   option set, oracle and numeric implementation, as soon as the fuel exceeds the nesting depth ([bounded n s]: no
+   reference anywhere and nesting depth at most n).  With references the statement needs a guardedness condition that
+   is not proved yet: the class between this theorem and the refutation above is covered by the tie only. *)
+Theorem C06_schemas_without_references_terminate_partial : forall OR N opt defs n fuel s,
+  bounded n s -> (n < fuel)%nat -> forall p q d, exists r, sv_validate OR N opt defs fuel s p q d = Ok r.
+Proof. exact ref_free_schemas_terminate. Qed.
+Print Assumptions C06_schemas_without_references_terminate_partial.
+
+(* non-vacuity: {"type":"object","properties":{"a":{"items":{"not":{}}}},"additionalProperties":{"allOf":[{}]}} is bounded by 4 *)
+Definition c06_example : schema :=
+  set_props [(40, set_items_one (Some (set_not (Some empty_schema) empty_schema)) empty_schema)]
+    (set_add_props (Some (true, Some (set_all_of [empty_schema] empty_schema))) empty_schema).
+Ltac kids_solve :=
+  repeat (unfold kids, c06_example in *; cbn in *; match goal with
+          | |- _ /\ _ => split
+          | |- forall _, _ => intro
+          | H : None = Some _ |- _ => discriminate H
+          | H : Some _ = Some _ |- _ => inversion H; subst; clear H
+          | |- Forall _ [] => constructor
+          | |- Forall _ (_ :: _) => constructor
+          | |- _ = None => reflexivity
+          end).
+Example C06_bounded_somewhere : bounded 4 c06_example.
+Proof. kids_solve. Qed.
